@@ -42,7 +42,7 @@ FORBIDDEN = [
     (r"\bSystemTime\b|\bInstant::now\b|\bstd::time\b", "clock access"),
     (r"\brand::|\bgetrandom\b", "randomness"),
     (r"\bstd::fs\b|\bFile::open\b", "file-system access at expansion time"),
-    (r"\bas\s+\*const\b.*\bas\s+usize\b|\bptr::addr\b|\.addr\(\)", "address-dependent values"),
+    (r"\*\s*(const|mut)\s+\w|\bas\s+usize\b.*ptr|\bptr::addr\b|\.addr\(\)|\bas_ptr\(\)", "address-valued data (raw pointers / addresses: hashing or ordering by them depends on ASLR)"),
 ]
 
 
